@@ -169,7 +169,7 @@ Lemma ev5_intro t r d tl o older :
         | TryLen, _ => false
         | _, _ => true
         end = true) ->
-  match o with Loop l c cr => if c =? 0 then is_panic r else loop_shape_ok l r && loop_panic_ok cr r | _ => true end = true ->
+  match o with Loop l c cr => if c =? 0 then is_chunkzero r else loop_shape_ok l r && loop_panic_ok cr r | _ => true end = true ->
   ev5 e t r d tl = true.
 Proof.
   intros Hs H5 H6 H12.
@@ -211,7 +211,7 @@ Proof.
   - destruct o, r; cbn [null_pair] in Hp; try discriminate; try reflexivity;
       try (destruct rs; try discriminate).
     + destruct (c =? 0); [discriminate Hp|reflexivity].
-    + destruct (c =? 0); [reflexivity|discriminate Hp].
+    + destruct (c =? 0); [exact Hp|discriminate Hp].
 Qed.
 
 (** ** helpers *)
@@ -270,7 +270,7 @@ Proof.
       - destruct (t_buf (c_pool c t)); [discriminate|]. injection E as <- <- <-. repeat split; try reflexivity; discriminate.
       - injection E as <- <- <-. repeat split; try reflexivity; discriminate.
       - destruct (N.eqb_spec c0 0); [|destruct (c0 =? 1); discriminate].
-        injection E as <- <- <-. repeat split; try reflexivity; try discriminate. cbn [null_pair]. apply N.eqb_eq; assumption. }
+        injection E as <- <- <-. repeat split; try reflexivity; try discriminate. cbn [null_pair is_chunkzero]. rewrite andb_true_r. apply N.eqb_eq; assumption. }
     destruct Hall as (Hnull & Hne & Hns).
     assert (Hsp : split_call t (ECall t o :: c_trace c) = Some (o, c_trace c)) by (cbn [split_call]; rewrite Nat.eqb_refl; reflexivity).
     apply iB_commit; [exact I|exact Hin|..].
@@ -662,8 +662,8 @@ Proof.
               | None => map (run_iv e) inv = [(b, cnt)]
               | Some used => 1 <= used /\ used <= cnt /\ map (run_iv e) inv = [(b, used)]
               end).
-    { intros Hfu. destruct (HFu Hfu) as (Hrs & _ & Hbl & _).
-      destruct (loop_invoke_cases e lk crash (total_cnt (t_acc (c_pool c t))) b cnt Hbl Hk1) as (inv2 & pan2 & E2 & Hi1 & _ & Hinv).
+    { intros Hfu. destruct (HFu Hfu) as (Hrs & Hbc & Hbl & _).
+      destruct (loop_invoke_cases e lk crash (total_cnt (t_acc (c_pool c t))) b cnt Hbl Hk1 ltac:(lia)) as (inv2 & pan2 & E2 & Hi1 & _ & Hinv).
       rewrite Hrs in Eli. rewrite Eli in E2. injection E2 as <- <-. split; assumption. }
     destruct pan as [used|].
     + cbn [ret_ev]. apply iB_commit; [exact I|exact Hin|..]; cbn [with_y s_f s_cur s_c].
